@@ -360,8 +360,25 @@ func genPathWide(c *hc.Ctx, kinds string, maxSegs int, coord func() float64) *ca
 	for s := 0; s < ns; s++ {
 		p.MoveTo(coord(), coord())
 		n := 1 + c.Intn(maxSegs)
+		segStart := p.Pos() // start point of the previous segment
 		for i := 0; i < n; i++ {
-			switch kinds[c.Intn(len(kinds))] {
+			before := p.Pos()
+			k := kinds[c.Intn(len(kinds))]
+			// a line back to an axis of the previous segment's START point: a printer that tracks the
+			// pen position wrongly across a segment picks a wrong H/V/skip shorthand here
+			if i > 0 && k != 'A' && c.Chance(0.15) {
+				k = 'S'
+			}
+			switch k {
+			case 'S':
+				switch c.Intn(3) {
+				case 0:
+					p.LineTo(segStart.X, coord())
+				case 1:
+					p.LineTo(coord(), segStart.Y)
+				default:
+					p.LineTo(segStart.X, segStart.Y)
+				}
 			case 'L':
 				p.LineTo(coord(), coord())
 			case 'Q':
@@ -379,6 +396,7 @@ func genPathWide(c *hc.Ctx, kinds string, maxSegs int, coord func() float64) *ca
 			case 'V':
 				p.LineTo(p.Pos().X, coord())
 			}
+			segStart = before
 		}
 		if c.Chance(0.4) {
 			p.Close()
